@@ -163,6 +163,14 @@ CHECKS = {
    note="Trusted: TLC, the regex-based attribute extractor, projections. serde_json/serde_yaml themselves are black boxes "
         "(DESIGN §6 C18 'honest limit'): the spec contributes attribute semantics and enumeration, not a model of the text formats.",
    tech="TLA+ attribute-semantics spec over extracted field table (TLC) + spec-generated value space; S->I replay"),
+ "C09": dict(cat="model_checking", ref="§6 C09",
+   text="Placer.tla defines reflection-aware boxes, Touches/Flush, the placed origin declaratively (CHOOSE) and in closed form "
+        "(equal and unique as a TLC invariant) and the placement step PlaceNext; TLC explores every placement interleaving of "
+        "3072 single-relation programs, chains/trees of three in every listing order, cyclic programs and 144 arrays, checking "
+        "confluence, order validity (ValidOrder of DepOrderProps) and that cycles block. Each program runs through Placer::place "
+        "(locations equal, cycles = error) and the observed placement order is validated step by step by Trace_Placer.",
+   note="Trusted: TLC, the program->Library builder. References are instances of the same layout; orthogonal alignment.",
+   tech="TLA+ placement spec, TLC exhaustive over programs and interleavings; S->I replay; I->S trace validation"),
 }
 
 PENDING = {}
